@@ -221,6 +221,8 @@ pub struct Exec {
     /// run full oracles (false: only execute, e.g. the prefix of a C11 scenario)
     pub check: bool,
     pub records_all: Vec<LpRecord>,
+    /// LP records of the operation that is being judged (set by absorb_records)
+    pub last_records: Vec<LpRecord>,
     pub removed_any: bool,
     pub selfcheck_pm: usize,
     /// the property the running check judges: violations of *other* properties are recorded but do
@@ -324,6 +326,7 @@ impl Exec {
             stats,
             check: true,
             records_all: Vec::new(),
+            last_records: Vec::new(),
             removed_any: false,
             selfcheck_pm: 150,
             focus: None,
@@ -439,8 +442,37 @@ impl Exec {
         ))
     }
 
+    /// (call index, rows) of an LP call of the current operation in which the real backend said
+    /// Infeasible for a system whose rows all have unit norm (or are zero) and which the exact LP
+    /// finds FAT (inside the float-regime box, or inside |x| <= 1e6 otherwise).
+    fn refuted_infeasible_answer(&self) -> Option<(usize, usize)> {
+        for r in &self.last_records {
+            if !r.zero_objective || r.real != lpseam::StatusKind::Infeasible {
+                continue;
+            }
+            let dim = r.mat.first().map(|x| x.len()).unwrap_or(0);
+            if dim == 0 || r.mat.iter().flatten().chain(r.bias.iter()).any(|v| !v.is_finite()) {
+                continue;
+            }
+            let unit = r.mat.iter().all(|row| {
+                let n: f64 = row.iter().map(|v| v * v).sum::<f64>().sqrt();
+                n == 0.0 || (n - 1.0).abs() < 1e-9
+            });
+            if !unit {
+                continue;
+            }
+            let mut rows = lpseam::rows_of(&r.mat, &r.bias);
+            rows.extend(crate::model::box_rows(dim, self.fat_box().unwrap_or(1e6)));
+            if width(dim, &rows).class() == Class::Fat {
+                return Some((r.index, r.bias.len()));
+            }
+        }
+        None
+    }
+
     fn absorb_records(&mut self) -> Vec<LpRecord> {
         let recs = lpseam::take_records(&self.seam);
+        self.last_records = recs.clone();
         self.stats.lp_calls += recs.len() as u64;
         for r in &recs {
             event(&format!(
@@ -536,7 +568,17 @@ impl Exec {
                 match self.confirm(&d, &self.pool[slot], &result_model, expected, &refeval) {
                     Ok(detail) => {
                         if prunes {
-                            let class = if d.kind == "definedness" { "definedness_changed" } else { "function_changed" };
+                            let mut class = if d.kind == "definedness" { "definedness_changed".to_string() } else { "function_changed".to_string() };
+                            let mut detail = detail;
+                            // Root-cause attribution: did the real backend, during this operation, answer
+                            // Infeasible for a row-normalized system that the exact LP proves feasible and FAT?
+                            // Then the function change is (at least also) the backend's doing - the class says so,
+                            // which is what the open finding of DESIGN.md 6.11 is keyed on.
+                            if let Some(r) = self.refuted_infeasible_answer() {
+                                class = format!("{class}_after_refuted_infeasible_answer");
+                                detail = format!("{detail}; LP call #{} ({} unit-norm rows) was answered Infeasible by the real backend although the exact LP finds an interior point", r.0, r.1);
+                            }
+                            let class = class.as_str();
                             out.violations.push(self.viol(Clause::Function, class, site, detail));
                             if self.stops(Clause::Function) {
                                 out.stop = true;
@@ -1606,6 +1648,7 @@ fn run_suffix(prefix_pool: &[AffTree<2>], prefix_models: &[ModelTree], sc: &Scen
         stats: PwlStats::default(),
         check: true,
         records_all: Vec::new(),
+        last_records: Vec::new(),
         removed_any: false,
         selfcheck_pm: 0,
         focus: None,
